@@ -132,12 +132,15 @@ Wrapped(t, k) ==
   CASE TypeOf(t) = "SInt" -> Node("SIntMinus", <<LeafAt("SIntMinus", 1, k, 7), t>>)
     [] TypeOf(t) = "Bool" -> Node("BoolNE", <<LeafAt("BoolNE", 1, k, 7), t>>)
     [] OTHER -> t
-Good(p, i, c, t) == Member(t) /\ (Required(SlotCtx(p, i), RootOp(c)) => Distinguishes(t, i))
+(* The nested part is about the text of the expression.  A Byte result of 128 and more belongs to the flat part     *)
+(* (there the Java route's signed byte shows, a recorded finding), so the operands are chosen below it.             *)
+ByteSafe(t) == TypeOf(t) = "Byte" => Lt(Value(t)[1], FromInt(128))
+Good(p, i, c, t) == Member(t) /\ ByteSafe(t) /\ (Required(SlotCtx(p, i), RootOp(c)) => Distinguishes(t, i))
 (* the first PerPair candidates that are members and tell the two readings apart; when there are fewer, members *)
 Picks(p, i, c, want) ==
   FoldLeft(LAMBDA acc, k : IF Len(acc) >= PerPair THEN acc
                            ELSE LET t == NestTree(p, i, c, k) IN
-                                IF (IF want THEN Good(p, i, c, t) ELSE Member(t)) THEN Append(acc, <<k, t>>) ELSE acc,
+                                IF (IF want THEN Good(p, i, c, t) ELSE Member(t) /\ ByteSafe(t)) THEN Append(acc, <<k, t>>) ELSE acc,
            <<>>, Ix(1, NCand))
 NestCases(p, i, c) ==
   LET g == Picks(p, i, c, TRUE)
